@@ -1648,6 +1648,10 @@ class Engine:
                 return [(s, mk_str(int_to_str(x.z)))]
             if isinstance(x.ty, (TRow, TRef)):
                 return [(s, mk_str(smt.fresh("str", smt.Str)))]
+            if isinstance(x.ty, TOpt) and x.ty.inner == STR:
+                # str(None) == "None", str(s) is s
+                S = x.ty.sort()
+                return [(s, mk_str(z3.If(x.z == S.none, z3.StringVal("None"), S.val(x.z))))]
             raise OutOfSubset(f"str() of {x.ty}")
         if name == "float":
             (x,) = pos
